@@ -37,9 +37,9 @@ def strategy(tier, mode=None):
             c = draw(lossgen.loss_case(kinds=["Square"], weights=False, target_param="any-order", max_states=3, n_times=(3, 6),
                                        additive=True, families=("chain", "bounded"), allow_time=False))
         elif mode == "hessianB":
-            c = draw(lossgen.loss_case(kinds=["Square"], weights=False, target_param="any-order", max_states=3, n_times=(3, 6)))
+            c = draw(lossgen.loss_case(kinds=["Square"], weights=False, target_param="any-order", max_states=3, n_times=(3, 6), catalogue=1))
         else:
-            c = draw(lossgen.loss_case(kinds=["Square"], weights=True, target_param="any-order", max_states=3, n_times=(3, 8)))
+            c = draw(lossgen.loss_case(kinds=["Square"], weights=True, target_param="any-order", max_states=3, n_times=(3, 8), catalogue=1))
         c["part"] = "jtj" if mode in (None, "jtj") else "hessian"
         c["spread"] = None
         if c["part"] == "jtj" and not isinstance(c["weights"], list) and draw(st.integers(0, 2)) > 0:
